@@ -163,6 +163,24 @@ def run_shard(spec, rec):
     def rel(a, b, tol=1e-9):
         return abs(a - b) <= tol * max(abs(a), abs(b)) + 1e-12
 
+    def conditioning(m_arg, prof, i, br):
+        """Relative tolerance for point i, or None where the point cannot be judged.  The
+        total-energy thrust is a SUM of terms of either sign: where they cancel (a descent in
+        which drag balances the energy rates) the sum - and with it the branch taken at
+        thrust = 0 - is determined only up to a few ulps of the terms."""
+        te, scale = B.total_energy_terms(
+            p, float(m_arg[i]), float(prof['temperature'][i]), float(prof['altitude'][i]),
+            float(prof['v_tas'][i]), float(prof['rocd'][i]), float(prof['acceleration'][i]))
+        noise = 64 * 2.2e-16 * scale
+        if abs(te) <= noise:
+            rec.cls('thrust:cancellation-below-resolution')
+            return None
+        tol = 1e-9 + (noise / abs(te) if br == 'total-energy' else 0.0)
+        if tol > 1e-4:
+            rec.cls('thrust:cancellation-below-resolution')
+            return None
+        return tol
+
     ks = [spec['only']] if 'only' in spec else range(spec['n'])
     for k in ks:
         rng = random.Random(f"{spec['seed']}-{k}")
@@ -246,7 +264,10 @@ def run_shard(spec, rec):
                         bool(prof['in_cruise'][i]), float(prof['groundspeed'][i]))
                     branches.add(br)
                     rec.ev()
-                    if not rel(float(sgr[i]), e_sgr):
+                    cond_tol = conditioning(m_arg, prof, i, br)
+                    if cond_tol is None:
+                        continue
+                    if not rel(float(sgr[i]), e_sgr, cond_tol):
                         # locate the disagreement: thrust or fuel flow?
                         thr = float(np.asarray(model.calculate_thrust(
                             m_arg[i:i + 1], prof['temperature'][i:i + 1],
@@ -254,7 +275,7 @@ def run_shard(spec, rec):
                             prof['rocd'][i:i + 1], prof['acceleration'][i:i + 1],
                             prof['in_cruise'][i:i + 1]))[0])
                         what = ('thrust differs from the BADA-3 total-energy / limit equations'
-                                if not rel(thr, e_thr) else
+                                if not rel(thr, e_thr, cond_tol) else
                                 f'{p["engine_type"].lower()} fuel flow differs from the BADA-3 '
                                 'equation' + (' (cruise correction)' if prof['in_cruise'][i]
                                               else ''))
@@ -290,7 +311,10 @@ def run_shard(spec, rec):
                             float(prof2['rocd'][i]), float(prof2['acceleration'][i]),
                             bool(prof2['in_cruise'][i]), float(prof2['groundspeed'][i]))
                         rec.ev()
-                        if not rel(float(sgr[i]), e_sgr):
+                        cond_tol = conditioning(m_arg, prof2, i, br)
+                        if cond_tol is None:
+                            continue
+                        if not rel(float(sgr[i]), e_sgr, cond_tol):
                             raise Mismatch('second flight with the same model object (same '
                                            'altitudes and temperatures, other speeds): specific '
                                            'ground range differs from the BADA-3 equations',
